@@ -47,6 +47,12 @@ pub trait NestedVal: map::Val<A> + CvRDT + PartialEq + std::fmt::Debug + serde::
     /// interpret a nested command for the value at `path` (the enclosing update carries `dot`)
     fn gen_nested(&self, ctx: AddCtx<A>, cmd: &Cmd, path: &[u8], dot: DotT, sh: &mut Shadow, old: Option<&Self>, acc: &mut GenAcc) -> Self::Op;
     fn obs(&self, inc: &mut Option<String>) -> ValObs;
+    /// some update of this value under the given (crafted) context, used to build aged initial states
+    fn aging_op(&self, ctx: AddCtx<A>) -> Self::Op;
+}
+
+fn aging_ctx(a: A, b: u64) -> AddCtx<A> {
+    AddCtx { clock: crdts::VClock::from(crdts::Dot::new(a, b)), dot: crdts::Dot::new(a, b) }
 }
 
 // ---------------- Orswot ----------------
@@ -184,6 +190,9 @@ impl NestedVal for OS {
     fn gen_nested(&self, ctx: AddCtx<A>, cmd: &Cmd, path: &[u8], dot: DotT, _sh: &mut Shadow, old: Option<&Self>, acc: &mut GenAcc) -> Self::Op {
         os_exec(self, cmd, old, acc, path, Some(dot), Some(ctx))
     }
+    fn aging_op(&self, ctx: AddCtx<A>) -> Self::Op {
+        self.add(255, ctx)
+    }
     fn obs(&self, inc: &mut Option<String>) -> ValObs {
         os_obs(self, inc).0
     }
@@ -209,6 +218,16 @@ impl Sut for OS {
     }
     fn template_cmd(role: u8, rng: &mut Rng) -> Option<Cmd> {
         Some(os_template(role, rng))
+    }
+    fn aged(base: &[(A, u64)]) -> Option<Self> {
+        let mut s = Orswot::new();
+        for (a, b) in base {
+            let op = s.add(255, aging_ctx(*a, *b));
+            s.apply(op);
+        }
+        let rm = s.rm(255, s.contains(&255).derive_rm_ctx());
+        s.apply(rm);
+        Some(s)
     }
     fn gen(&self, actor: A, cmd: &Cmd, sh: &mut Shadow, old: &Self) -> Option<Gen<Self::Op>> {
         let mut acc = GenAcc { facts: vec![], desc: String::new(), rf_vals: vec![], rm_ctxs: vec![] };
@@ -297,6 +316,9 @@ impl NestedVal for MV {
         acc.desc += &format!("write({val})");
         acc.facts.push(Fact::Up { dot, path: path.to_vec(), leaf: Leaf::Put(vc(&ctx.clock), val) });
         self.write(val, ctx)
+    }
+    fn aging_op(&self, ctx: AddCtx<A>) -> Self::Op {
+        self.write(0, ctx)
     }
     fn obs(&self, inc: &mut Option<String>) -> ValObs {
         mv_obs(self, inc).0
@@ -502,6 +524,9 @@ where
             }
         }
     }
+    fn aging_op(&self, ctx: AddCtx<A>) -> Self::Op {
+        self.update(255, ctx, |v, c| v.aging_op(c))
+    }
     fn obs(&self, inc: &mut Option<String>) -> ValObs {
         map_obs(self, inc).0
     }
@@ -582,6 +607,16 @@ macro_rules! impl_map_sut {
                 } else {
                     Cmd::new("update", vec![0]).src("read_ctx").sub(<<$t as MapOf>::V as NestedVal>::template_nested(role, rng))
                 })
+            }
+            fn aged(base: &[(A, u64)]) -> Option<Self> {
+                let mut m: $t = Map::new();
+                for (a, b) in base {
+                    let op = m.update(255, aging_ctx(*a, *b), |v, c| v.aging_op(c));
+                    m.apply(op);
+                }
+                let rm = m.rm(255, m.get(&255).derive_rm_ctx());
+                m.apply(rm);
+                Some(m)
             }
             fn gen(&self, actor: A, cmd: &Cmd, sh: &mut Shadow, old: &Self) -> Option<Gen<Self::Op>> {
                 map_gen(self, actor, cmd, sh, old)
